@@ -114,7 +114,7 @@ def _run_knockout(args) -> Dict:
         with open(path, encoding="utf-8") as fh:
             src = fh.read()
         new = ko.edit(src)
-    except (LookupError, OSError) as e:
+    except (LookupError, OSError, ValueError) as e:      # str.index raises ValueError when the anchor text is gone
         return {"name": ko.name, "status": "not-applicable", "why": str(e)}
     if new == src:
         return {"name": ko.name, "status": "not-applicable", "why": "edit is a no-op"}
